@@ -39,7 +39,15 @@ var (
 	ErrTableNotExist     = errors.New("table does not exist")
 	ErrTypeMismatch      = errors.New("types do not match")
 	ErrIntOutOfRange     = errors.New("integer value out of range")
+	ErrCatalogReadOnly   = errors.New("catalog tables can't be changed by statements")
 )
+
+// IsCatalogTable reports whether name is one of the tables in which the store
+// keeps its own bookkeeping (the location and the columns of every table).
+// The store trusts their content, so statements may read but not change them.
+func IsCatalogTable(name string) bool {
+	return name == pageTableName || name == schemaTableName
+}
 
 type FieldDef struct {
 	DataType
